@@ -159,6 +159,22 @@ def nestable_family():
         blocks.append({"id": len(blocks), "kind": "Nest", "outer": 0, "inner": inner, "constraints": []})
         out.append(("nestable", {"factors": [A, B, C, D], "constraints": cons, "blocks": blocks, "main": blocks[-1]["id"],
                                  "shape": "nestable"}))
+    # inner blocks with run-length / count constraints (block level, and below a Repeat)
+    A = F(0, "A", ["a0", "a1"])
+    B = F(1, "B", ["b0", "b1"])
+    for kind, k, rep in (("AtMostKInARow", 1, 4), ("AtLeastKInARow", 1, 0), ("ExactlyK", 1, 0), ("ExactlyKInARow", 1, 4),
+                         ("AtMostKInARow", 2, 0)):
+        cons = [{"id": 0, "kind": kind, "k": k, "level": [1, "b0"]}]
+        blocks = [{"id": 0, "kind": "CrossBlock", "design": [0], "crossing": [0], "constraints": [], "rcc": True},
+                  {"id": 1, "kind": "CrossBlock", "design": [1], "crossing": [1], "constraints": [0], "rcc": True}]
+        inner = 1
+        if rep:
+            cons.append({"id": 1, "kind": "MinimumTrials", "trials": rep})
+            blocks.append({"id": 2, "kind": "Repeat", "block": 1, "constraints": [1]})
+            inner = 2
+        blocks.append({"id": len(blocks), "kind": "Nest", "outer": 0, "inner": inner, "constraints": []})
+        out.append(("nestable-constraint", {"factors": [A, B], "constraints": cons, "blocks": blocks, "main": blocks[-1]["id"],
+                                            "shape": "nestable"}))
     return out
 
 
@@ -174,11 +190,16 @@ def nestsem_observation(program):
 
     def show(sem):
         T, fs, cs, ks = sem
-        return "(%d (%s) (%s) %d)" % (
+
+        def kc(k):
+            tag = k[0][0].s
+            kind = "(%s %d)" % (tag, k[0][1]) if tag in ("atmost", "atleast", "exactlyrow", "exactlyk") else "(other)"
+            return "(%s %d %d (%s))" % (kind, k[1], k[2], " ".join("(%d %d)" % tuple(w) for w in k[3]))
+        return "(%d (%s) (%s) (%s))" % (
             T, " ".join("(%d %d %s)" % (f[0], f[1], "none" if f[2] is None else "derived") for f in fs),
             " ".join("((%s) %d %d (%s))" % (" ".join(map(str, c[0])), c[1], c[2],
                                             " ".join("((%s) %d)" % (" ".join(map(str, m[0])), m[1]) for m in c[3])) for c in cs),
-            len(ks))
+            " ".join(kc(k) for k in ks))
     return "(nestsem %s %s)" % (to_wire(o.sem), to_wire(i.sem)), show(n.sem)
 
 
